@@ -264,20 +264,43 @@ theorem target_text_eq (t : Target) :
   unfold Model.C11.Target.text sheetPart
   split <;> simp [List.append_assoc] <;> (rcases t.snd with _ | ⟨a, c, b⟩ <;> rfl)
 
-theorem filter_target (t : Target) (hd : '$' ∉ t.sheet) :
-    (Model.C11.Target.text t).filter (· ≠ '$') = sheetPart t ++ '!' :: restText t := by
-  rw [target_text_eq]
-  have hs : (sheetPart t).filter (· ≠ '$') = sheetPart t :=
-    filter_dollar_self _ fun h => hd ((mem_sheetPart (by decide) t).mp h)
-  have e1 : decide ('!' ≠ '$') = true := by decide
+/-- the reference part of the target as the file writes it (with its `$`). -/
+def refsText (t : Target) : Text :=
+  refText t.ac1 t.c1.col t.ar1 t.c1.row ++
+    (match t.snd with | none => [] | some (ac2, c2, ar2) => ':' :: refText ac2 c2.col ar2 c2.row)
+
+theorem target_text_eq' (t : Target) : Model.C11.Target.text t = sheetPart t ++ '!' :: refsText t :=
+  target_text_eq t
+
+theorem refText_no_bang (ac : Bool) (c : Coord) (ar : Bool) : '!' ∉ refText ac c.col ar c.row := by
+  intro h
+  unfold refText at h
+  simp only [List.mem_append] at h
+  rcases h with ((h | h) | h) | h
+  · cases ac <;> simp at h
+  · exact (upper_ne (colName_upper _ _ h)).2.1 rfl
+  · cases ar <;> simp at h
+  · exact (digit_ne (digits_digit _ _ h)).2.1 rfl
+
+theorem refsText_no_bang (t : Target) : '!' ∉ refsText t := by
+  unfold refsText
+  intro h
+  rcases List.mem_append.mp h with h | h
+  · exact refText_no_bang _ _ _ h
+  · rcases hs : t.snd with _ | ⟨a, c2, b⟩
+    · simp [hs] at h
+    · simp only [hs, List.mem_cons] at h
+      rcases h with h | h
+      · revert h; decide
+      · exact refText_no_bang _ _ _ h
+
+theorem filter_refsText (t : Target) : (refsText t).filter (· ≠ '$') = restText t := by
   have e2 : decide (':' ≠ '$') = true := by decide
-  rw [List.filter_append, hs, List.filter_cons, if_pos e1, List.filter_append, filter_refText]
-  unfold restText
-  cases t.snd with
-  | none => rfl
-  | some p =>
-    obtain ⟨a, c2, b⟩ := p
-    show _ ++ '!' :: (bare t.c1 ++ List.filter _ (':' :: refText a c2.col b c2.row)) = _
+  unfold refsText restText
+  rw [List.filter_append, filter_refText]
+  rcases t.snd with _ | ⟨a, c2, b⟩
+  · rfl
+  · show bare t.c1 ++ List.filter _ (':' :: refText a c2.col b c2.row) = _
     rw [List.filter_cons, if_pos e2, filter_refText]
 
 /-! ### `resolve_sheet` -/
@@ -346,19 +369,18 @@ theorem resolveSheet_sheetPart (t : Target) (hne : t.sheet ≠ [])
     simp only [Bool.false_eq_true, if_false]
     exact resolveSheet_plain _ (hplain hq).1 (hplain hq).2
 
-/-- **The address `build_defined_names` computes** for the target `'Sheet'!$A$1[:$B$2]`: the `$` are
-    dropped and the sheet part is unquoted. -/
-theorem normAddress_target (t : Target) (hne : t.sheet ≠ []) (hd : '$' ∉ t.sheet) (hb : '!' ∉ t.sheet)
+/-- **The address `build_defined_names` computes** for the target `'Sheet'!$A$1[:$B$2]`: cut at the last
+    `!`, the `$` dropped from the coordinates only, the sheet part unquoted — whatever characters the
+    sheet name contains. -/
+theorem normAddress_target (t : Target) (hne : t.sheet ≠ [])
     (hplain : t.quoted = false → t.sheet.head? ≠ some '\'' ∧ strip t.sheet = t.sheet) :
     normAddress (Model.C11.Target.text t) = t.sheet ++ '!' :: restText t := by
   unfold normAddress
-  simp only [filter_target t hd]
-  have hsb : '!' ∉ sheetPart t := fun h => hb ((mem_sheetPart (by decide) t).mp h)
-  have hcount : (sheetPart t ++ '!' :: restText t).count '!' = 1 := by
-    rw [List.count_append, List.count_cons_self, List.count_eq_zero.mpr hsb,
-      List.count_eq_zero.mpr (restText_no_bang t)]
-  rw [if_pos hcount, rsplit1_of _ _ _ (restText_no_bang t)]
-  simp only [resolveSheet_sheetPart t hne hplain]
+  rw [target_text_eq']
+  have hc : (sheetPart t ++ '!' :: refsText t).contains '!' = true := by
+    apply List.contains_iff_mem.mpr; simp
+  rw [if_pos hc, rsplit1_of _ _ _ (refsText_no_bang t)]
+  simp only [resolveSheet_sheetPart t hne hplain, filter_refsText]
 
 /-! ### `resolve_ranges`: the matrix of an area -/
 
@@ -386,14 +408,24 @@ theorem rangeBoundaries_area (c1 c2 : Coord) (h1 : 1 ≤ c1.col) (h2 : 1 ≤ c1.
   have e4 : ¬ c2.row = 0 := by omega
   simp [e1, e2, e3, e4]
 
+theorem area_no_bang (c1 c2 : Coord) : '!' ∉ bare c1 ++ ':' :: bare c2 := by
+  intro h
+  rcases List.mem_append.mp h with h | h
+  · exact (bare_chars _ _ h).2.1 rfl
+  · rcases List.mem_cons.mp h with h | h
+    · revert h; decide
+    · exact (bare_chars _ _ h).2.1 rfl
+
 /-- `XLRange(sheet!A1:B2).cells` is the matrix of the area, row by row — as the statement lists it. -/
-theorem resolveRanges_area (sheet : Text) (c1 c2 : Coord) (hne : sheet ≠ []) (hb : '!' ∉ sheet)
+theorem resolveRanges_area (sheet : Text) (c1 c2 : Coord) (hne : sheet ≠ [])
     (hr : resolveSheet sheet = sheet)
     (h1 : 1 ≤ c1.col) (h2 : 1 ≤ c1.row) (h3 : 1 ≤ c2.col) (h4 : 1 ≤ c2.row) :
     resolveRanges (sheet ++ '!' :: (bare c1 ++ ':' :: bare c2)) = (sheet, Spec.C11.members sheet c1 c2) := by
   unfold resolveRanges
-  rw [split1_of '!' _ _ hb]
-  simp only [hr, rangeBoundaries_area c1 c2 h1 h2 h3 h4, hne, if_false]
+  have hc : (sheet ++ '!' :: (bare c1 ++ ':' :: bare c2)).contains '!' = true := by
+    apply List.contains_iff_mem.mpr; simp
+  rw [rsplit1_of '!' _ _ (area_no_bang c1 c2)]
+  simp only [hc, if_true, hr, rangeBoundaries_area c1 c2 h1 h2 h3 h4, hne, if_false]
   unfold Spec.C11.members Spec.C11.addr coordText
   simp [List.append_assoc]
 
